@@ -305,3 +305,30 @@ Proof.
   exists [true; false], [("Mean", "Dim. 1"); ("Std.", "Dim. 1")], ["a"], 0, ("Mean", "Dim. 1").
   repeat split; cbn; discriminate.
 Qed.
+
+(* ---------------- sensitivity requests follow the free parameters ---------------- *)
+Lemma rstep_ok {V} (r : rstate V) o : rok (rstep r o).
+Proof.
+  destruct o as [d|[|]]; unfold rok; cbn; [|reflexivity|exact I].
+  unfold refresh. destruct (rsens r); [reflexivity | exact I].
+Qed.
+
+(* after ANY history of fix / release / sensitivity switches the sensitivities asked for are those of the free
+   parameters, in their order *)
+Theorem sens_follow_free {V} names (ops : list (rop V)) : rok (rrun rstep names ops).
+Proof.
+  unfold rrun. assert (G : forall r, rok r -> rok (fold_left rstep ops r)).
+  { induction ops as [|o ops IH]; intros r H; [exact H|]. cbn [fold_left]. apply IH, rstep_ok. }
+  apply G. exact I.
+Qed.
+
+Theorem sens_refresh_on_count_refuted : exists names (ops : list (rop nat)), ~ rok (rrun rstep_count names ops).
+Proof.
+  exists ["a"; "b"; "c"], [RFix [("b", Some 1)]; RSens true; RFix [("b", None); ("a", Some 2)]].
+  cbv. discriminate.
+Qed.
+Theorem sens_early_return_refuted : exists names (ops : list (rop nat)), ~ rok (rrun rstep_early names ops).
+Proof.
+  exists ["a"; "b"; "c"], [RFix [("b", Some 1)]; RSens true; RFix [("b", None)]].
+  cbv. discriminate.
+Qed.
